@@ -264,7 +264,7 @@ func switchThreading(v *VM) *val.Val {
 		case OP_LIST_LOAD:
 			idx := int(v.Pop().Num().V)
 			lst := v.Pop().List().V
-			util.Assert(idx < len(lst), "out of range %d of %s", idx, lst)
+			util.Assert(idx >= 0 && idx < len(lst), "out of range %d of %s", idx, lst)
 			v.Push(lst[idx])
 
 		case OP_MAP_LOAD:
